@@ -402,7 +402,9 @@ pub fn run(ctx: &Ctx) -> i32 {
         // the same universe behind a 70-byte common prefix (longer than the 64-byte slot buffers), all k-tuples for k <= 3
         {
             let prefix = vec![b'P'; 70];
-            let luniv: Vec<Vec<u8>> = vec![prefix.clone(), [&prefix[..], b"a"].concat(), [&prefix[..], b"ab"].concat(), [&prefix[..], b"b"].concat()];
+            // ... plus two SHORT keys that sort after all the long ones: a stream then yields a key longer than 64 bytes followed by a
+            // short one (whatever a slot keeps from the long key must not leak into the short one)
+            let luniv: Vec<Vec<u8>> = vec![prefix.clone(), [&prefix[..], b"a"].concat(), [&prefix[..], b"ab"].concat(), [&prefix[..], b"b"].concat(), b"a".to_vec(), b"ab".to_vec()];
             let lnsub = 1usize << luniv.len();
             let linputs: Vec<Vec<Input>> = (0..lnsub)
                 .map(|m| (0..4).map(|var| mk_input(gen::subset(&luniv, m as u64).into_iter().enumerate().map(|(i, k)| (k, vals[(i + var + m) % 4])).collect())).collect())
@@ -411,7 +413,8 @@ pub fn run(ctx: &Ctx) -> i32 {
             for k in 1..=3usize {
                 for t in 0..lnsub.pow(k as u32) {
                     g += 1;
-                    if g % n != shard {
+                    // k = 3 is sampled (64^3 tuples)
+                    if g % n != shard || (k == 3 && crate::rng::mix(t as u64) % 13 != 0) {
                         continue;
                     }
                     let mut x = t;
